@@ -17,6 +17,8 @@ def dispatch (line : String) : String :=
       | "leaf" => leaf args
       | "tree" => tree args
       | "vtree" => vtree args
+      | "ctree" => ctree args
+      | "tdist" => tdist args
       | "ctor" => ctor args
       | "permute" => permute args
       | "permvalid" => permvalid args
